@@ -1,5 +1,7 @@
 //! C13 — interval arithmetic is sound and tight for the denoted sets.
 
+use crate::fl::X;
+use proptest::prelude::*;
 use crate::engine::{guard, Obs, PResult, Run};
 use crate::model::{all_intervals, interval_kind, MI, NEG_INF, POS_INF};
 use crate::props::de;
@@ -332,6 +334,82 @@ pub fn rel_case(c: &RelCase, obs: &mut Obs) -> PResult {
     Ok(())
 }
 
+/// relative_to on generic (non-dyadic) bounds: every finite bound of the result is, within 2 ulp of its own
+/// magnitude, the exact value of (x - r) / r for the endpoints that attain it (so the extremal members' own relative
+/// change is enclosed up to rounding, however close x is to r)
+#[derive(Clone, Debug, Serialize, Deserialize)]
+pub struct RelRandom {
+    pub f32: bool,
+    /// 0 two-sided, 1 upper, 2 lower — of the reference and of self
+    pub kr: u8,
+    pub ks: u8,
+    pub r1: X,
+    pub r2: X,
+    pub s1: X,
+    pub s2: X,
+}
+fn exact_rel(x: f64, r: f64) -> f64 {
+    use crate::exact::{ratio_to_f64, Dy};
+    let num = Dy::from_f64(x).sub(&Dy::from_f64(r));
+    let den = Dy::from_f64(r);
+    ratio_to_f64(&num.num, &den.num, num.exp - den.exp)
+}
+pub fn rel_random_case(c: &RelRandom, obs: &mut Obs) -> PResult {
+    fn go<F: crate::fl::Fl>(c: &RelRandom, obs: &mut Obs) -> PResult {
+        let f = |x: X| F::from64(x.0);
+        let mk = |k: u8, a: X, b: X| -> Interval<F> {
+            let (a, b) = if a.0 <= b.0 { (a, b) } else { (b, a) };
+            match k {
+                0 => Interval::TwoSided(f(a), f(b)),
+                1 => Interval::UpperOneSided(f(a)),
+                _ => Interval::LowerOneSided(f(b)),
+            }
+        };
+        let reference = mk(c.kr, c.r1, c.r2);
+        let this = mk(c.ks, c.s1, c.s2);
+        // documented panics: zero / same-direction references (C11); negative values are outside the clause
+        let ends = |i: &Interval<F>| -> Vec<f64> {
+            let (_, l, h) = crate::model::bounds(i);
+            [l, h].into_iter().filter(|v| v.is_finite()).collect()
+        };
+        if ends(&reference).iter().any(|v| *v <= 0.0) || ends(&this).iter().any(|v| *v < 0.0) || (c.kr != 0 && c.kr == c.ks) || c.kr == 2 || c.ks == 2 {
+            obs.exclude("relative_to outside the clause (non-positive reference, negative self, lower or same-direction one-sided operands)");
+            return Ok(());
+        }
+        obs.eval();
+        let sig = format!("C13/relative_to_random/{}", F::NAME);
+        let r = match guard(|| this.relative_to(&reference)) {
+            Ok(r) => r,
+            Err(p) => return crate::engine::fail(sig, format!("{this:?}.relative_to({reference:?}) panicked: {p}")),
+        };
+        let (_, lo, hi) = crate::model::bounds(&r);
+        ensure!(!(lo > hi) && !lo.is_nan() && !hi.is_nan(), sig, "{this:?}.relative_to({reference:?}) = {r:?} is not well-formed");
+        let cands: Vec<f64> = ends(&this).iter().flat_map(|x| ends(&reference).into_iter().map(move |rr| exact_rel(*x, rr))).collect();
+        let tol = |v: f64| 2.0 * F::U * 2.0 * v.abs() + if F::IS32 { 1e-44 } else { 1e-322 };
+        for (name, b) in [("lower", lo), ("upper", hi)] {
+            if !b.is_finite() {
+                continue;
+            }
+            let best = cands.iter().map(|v| (b - v).abs() / tol(*v).max(f64::MIN_POSITIVE)).fold(f64::INFINITY, f64::min);
+            ensure!(best <= 1.0, sig, "{this:?}.relative_to({reference:?}) = {r:?}: the {name} bound {b:e} is not within 2 ulp of the exact relative change of any pair of endpoints {cands:?}");
+            obs.headroom(&format!("relative_to_random/{}", F::NAME), best, || json!({"this": format!("{this:?}"), "reference": format!("{reference:?}")}));
+        }
+        // soundness: the relative change of every pair of endpoints is enclosed, up to the same rounding
+        for v in &cands {
+            ensure!(lo - tol(lo).max(tol(*v)) <= *v && *v <= hi + tol(hi).max(tol(*v)), sig, "{this:?}.relative_to({reference:?}) = {r:?} does not enclose the relative change {v:e} of a pair of endpoints");
+        }
+        let close = cands.iter().any(|v| v.abs() < 0.01);
+        obs.class(&format!("relative_to_random/{}/{}", F::NAME, if close { "self-close-to-reference" } else { "apart" }));
+        obs.nontrivial(&(c.f32, c.kr, c.ks, c.r1.0.to_bits(), c.r2.0.to_bits(), c.s1.0.to_bits(), c.s2.0.to_bits()));
+        Ok(())
+    }
+    if c.f32 {
+        go::<f32>(c, obs)
+    } else {
+        go::<f64>(c, obs)
+    }
+}
+
 /// unsigned element types: A + B and A - B where every member result is representable (no negation available,
 /// so only the interval-interval operators and + - * / by a non-negative scalar are exercised)
 #[derive(Clone, Debug, Serialize, Deserialize)]
@@ -419,7 +497,7 @@ pub fn unsigned_case(c: &UnsignedCase, obs: &mut Obs) -> PResult {
 
 pub fn run(run: &mut Run) {
     run.technique = "bounded exhaustive enumeration over an integer box and dyadic floats; oracle = exact image of the denoted set (member-wise soundness, attained bounds, kind)".into();
-    run.rule = "all 63 intervals with bounds in [-4,4] x all scalars in [-4,4] for + - * / and negation, all ordered interval pairs for A+B / A-B, in i32, i64 (scaled), f64 (unit 0.5) and f32 (unit 0.25); the representable part of the same over u8 / u32 / usize with bounds 0..6; relative_to over non-negative intervals x strictly positive references on three dyadic grids and at three extreme scales (subnormal, smallest normal, 2^1000); every case is non-trivial; distinct = (type, op, operands)".into();
+    run.rule = "all 63 intervals with bounds in [-4,4] x all scalars in [-4,4] for + - * / and negation, all ordered interval pairs for A+B / A-B, in i32, i64 (scaled), f64 (unit 0.5) and f32 (unit 0.25); the representable part of the same over u8 / u32 / usize with bounds 0..6; relative_to over non-negative intervals x strictly positive references on three dyadic grids and at three extreme scales (subnormal, smallest normal, 2^1000); relative_to on random non-dyadic f32/f64 bounds with self between 100 % and one ulp away from the reference, each bound compared with the exact rational (x-r)/r within 2 ulp; every case is non-trivial; distinct = (type, op, operands)".into();
     let all = all_intervals(-B, B);
     for ty in ["i32", "i64", "f64", "f32"] {
         for op in ["add", "sub", "mul", "div", "neg"] {
@@ -476,6 +554,27 @@ pub fn run(run: &mut Run) {
         }
     }
     run.exhaustive = true;
+    // relative_to on generic floats, self from far from to extremely close to the reference
+    {
+        let n = run.tier.pick(60_000, 3_000_000);
+        let mant = || (1u64 << 52)..(1u64 << 53);
+        let s = (any::<bool>(), 0u8..2, 0u8..2, mant(), mant(), -30i32..=30, prop::collection::vec((0u32..50, mant(), any::<bool>()), 2..=2)).prop_map(|(f32_, kr, ks, m1, m2, e, d)| {
+            let cast = |v: f64| if f32_ { (v as f32) as f64 } else { v };
+            let r1 = cast(m1 as f64 / (1u64 << 52) as f64 * crate::fl::pow2(e));
+            let r2 = cast(r1 * (1.0 + (m2 as f64 / (1u64 << 53) as f64 - 0.5) * 0.25));
+            // self bounds: reference bounds times (1 ± 2^-k * u), k in 0..50 — from 100 % apart down to the last bits
+            let mut sb = vec![];
+            for (i, (k, m, neg)) in d.iter().enumerate() {
+                let delta = (*m as f64 / (1u64 << 53) as f64) * crate::fl::pow2(-(*k as i32));
+                let base = if i == 0 { r1 } else { r2 };
+                sb.push(cast(base * if *neg { 1.0 - delta.min(0.999) } else { 1.0 + delta }));
+            }
+            RelRandom { f32: f32_, kr, ks, r1: X(r1), r2: X(r2), s1: X(sb[0]), s2: X(sb[1]) }
+        });
+        run.prop("relative_to_random", n, s, rel_random_case);
+        run.require_class("relative_to_random/f64/self-close-to-reference");
+        run.require_class("relative_to_random/f32/self-close-to-reference");
+    }
     run.exhaustive_parts.push("all interval x scalar and interval x interval combinations over the box [-4,4] in four element types; relative_to over bounds 0..6 / 1..6 on three grids".into());
     for op in ["add", "sub", "mul", "div"] {
         for kind in ["two", "upper", "lower"] {
@@ -496,6 +595,7 @@ pub fn replay(sub: &str, v: &Value, obs: &mut Obs) -> Option<PResult> {
         "scalar" => scalar_case(&de(v), obs),
         "pair" => pair_case(&de(v), obs),
         "relative_to" => rel_case(&de(v), obs),
+        "relative_to_random" => rel_random_case(&de(v), obs),
         "unsigned" => unsigned_case(&de(v), obs),
         _ => return None,
     })
